@@ -196,13 +196,25 @@ def coresOf (m : Nat) : List Nat := (List.range (m.log2 + 1)).filter m.testBit
 def expand (out : List (Nat × Nat)) : List (Nat × Nat × Nat) :=
   out.flatMap fun pr => (chipsOf pr.1).flatMap fun c => (coresOf pr.2).map fun p => (c.1, c.2, p)
 
-def key3 (t : Nat × Nat × Nat) : Nat := (t.1 * 65536 + t.2.1) * 4294967296 + t.2.2
+/-- an injective pairing of two naturals (the formula of Mathlib's `Nat.pair`), so that the
+sort key below is injective on ALL triples, not only on bounded ones -/
+def pair (a b : Nat) : Nat := if a < b then b * b + a else a * a + a + b
+
+def key3 (t : Nat × Nat × Nat) : Nat := pair (pair t.1 t.2.1) t.2.2
 
 def sortNat (l : List Nat) : List Nat := l.mergeSort (fun a b => a ≤ b)
 
-/-- multiset of selected (chip, core) = set of targets (targets given without repetition) -/
+/-- multiset of selected (chip, core) = set of targets (targets given without repetition);
+theorem `exactB_iff`: for repetition-free targets this is `Exact targets out` -/
 def exactB (targets : List (Nat × Nat × Nat)) (out : List (Nat × Nat)) : Bool :=
   sortNat ((expand out).map key3) == sortNat (targets.map key3)
+
+def strictNat : List Nat → Bool
+  | a :: b :: rest => decide (a < b) && strictNat (b :: rest)
+  | _ => true
+
+/-- the targets are given without repetition (theorem `nodupB_iff`) -/
+def nodupB (targets : List (Nat × Nat × Nat)) : Bool := strictNat (sortNat (targets.map key3))
 
 def strictB : List (Nat × Nat) → Bool
   | a :: b :: rest => (a.1 < b.1 || (a.1 == b.1 && a.2 < b.2)) && strictB (b :: rest)
@@ -240,6 +252,17 @@ def buildTrace (ts : List (Int × Int × Int)) : Except Err (RTree × List Bool)
       | .error e => .error e
       | .ok (t', b) => .ok (t', st.2 ++ [b])) (RTree.new 0 0 0, [])
 
+/-- the same loop on a tree the caller constructed as `RegionCoreTree(base_x, base_y, level)` (the class is
+public): every `add_core` return value - a node below the root reports `True` when a core fills its square - and
+the `ValueError` for a chip outside the node's square.  Recursion fuel = the `4 - level` levels at and below
+the node. -/
+def buildTraceAt (x0 y0 lv : Nat) (ts : List (Int × Int × Int)) : Except Err (RTree × List Bool) :=
+  ts.foldlM (fun (st : RTree × List Bool) (c : Int × Int × Int) =>
+    if c.1 < 0 ∨ c.2.1 < 0 ∨ c.2.2 < 0 then .error .valueError
+    else match addCore (4 - lv) st.1 c.1.toNat c.2.1.toNat c.2.2.toNat with
+      | .error e => .error e
+      | .ok (t', b) => .ok (t', st.2 ++ [b])) (RTree.new x0 y0 lv, [])
+
 def handle (op : String) (j : Json) : R Json := do
   match op with
   | "compress" =>
@@ -253,6 +276,14 @@ def handle (op : String) (j : Json) : R Json := do
     | .ok (t, bs) =>
       pure (jOk (Json.mkObj [("tree", treeToJson t), ("returns", jList (bs.map Json.bool)),
         ("yield", jPairs (emit 4 t))]))
+    | .error e => pure (jErr (errName e))
+  | "subtree" =>
+    let ts ← (← arr j "targets").mapM asTriple
+    let lv ← nat j "level"
+    match buildTraceAt (← nat j "x") (← nat j "y") lv ts with
+    | .ok (t, bs) =>
+      pure (jOk (Json.mkObj [("tree", treeToJson t), ("returns", jList (bs.map Json.bool)),
+        ("yield", jPairs (emit (4 - lv) t))]))
     | .error e => pure (jErr (errName e))
   | "region" =>
     match regionForChip (← nat j "x") (← nat j "y") (← nat j "level") with
@@ -270,6 +301,7 @@ def handle (op : String) (j : Json) : R Json := do
       | .error _ => pure []
     let bad := qs.filter fun q => countSel out q.1 q.2.1 q.2.2.1 != q.2.2.2
     pure (Json.mkObj [("exact", Json.bool (exactB ts out)), ("sorted", Json.bool (strictB out)),
+      ("nodup", Json.bool (nodupB ts)),
       ("bad", jList ((bad.take 3).map fun q => jNats [q.1, q.2.1, q.2.2.1, q.2.2.2,
         countSel out q.1 q.2.1 q.2.2.1]))])
   | "chips" =>
